@@ -259,7 +259,7 @@ func diagOr(n *refcbor.Node) string {
 }
 
 func runC11(c *mon.Ctx) {
-	c.Rule("histories = random sequences of 1..40 setter calls (all 9 setters of both profiles, values drawn from the C01 classes incl. every byte length 0..80 and lengths congruent to the legal ones modulo 2^8 / 2^16, valid and invalid interleaved, repeats) on a NewClaims object (or, one history in five, a zero-value struct literal without container) of either base profile or (a third of the histories) of the registered extension profile embedding it; after EVERY call the full observation (Validate + 10 getters + component getters) is compared with a last-successful-write-wins model, a refused call must also leave both encodings byte-identical, the setter must accept iff the reference predicate accepts; at the end the same final values are replayed once each in shuffled order on a fresh object and both encodings must be byte-identical. Also histories of 1..12 calls of the software component's own five setters on one component (every field compared with the model after every call) and histories of Add / Replace calls on the component container itself (valid and invalid lists; all-or-nothing, content compared through its CBOR form). Also setters called with an invalid value that the object already holds (assigned directly): refused all the same. Also single calls: every setter x every length 0..80 (and the congruent lengths). distinct_nontrivial = distinct (profile, setter, value-class, accepted?) + distinct history signatures")
+	c.Rule("histories = random sequences of 1..40 setter calls (all 9 setters of both profiles, values drawn from the C01 classes incl. every byte length 0..80 and lengths congruent to the legal ones modulo 2^8 / 2^16, valid and invalid interleaved, repeats) on a NewClaims object (or, one history in five, a zero-value struct literal without container) of either base profile or (a third of the histories) of the registered extension profile embedding it; after EVERY call the full observation (Validate + 10 getters + component getters) is compared with a last-successful-write-wins model, a refused call must also leave both encodings byte-identical, the setter must accept iff the reference predicate accepts; at the end the same final values are replayed once each in shuffled order on a fresh object and both encodings must be byte-identical. Also histories of 1..12 calls of the software component's own five setters on one component (every field compared with the model after every call) and histories of Add / Replace calls on the component container itself (valid and invalid lists; all-or-nothing, content compared through its CBOR form). Also setters called with an invalid value that the object already holds (assigned directly): refused all the same. Also single calls: every setter x every length 0..80 (and the congruent lengths). In a third of the histories (half of the component histories) the byte-string arguments are passed to the library as they are and drawn from a pool of slices shared between calls (the same backing array given to several setters / several times; the harness never writes to them). distinct_nontrivial = distinct (profile, setter, value-class, accepted?) + distinct history signatures")
 	g := model.NewGen(c.Seed*7001 + int64(c.Shard))
 	nh := c.N(30000, 1500000)
 	if err := extprof.Register(extprof.ExtP2Name, extprof.ExtP1Name); err != nil {
